@@ -53,10 +53,24 @@ class ProofRun(FullStack):
             self.loop.run_until_idle()
         for j in self.session_jobs():
             self.hold.add(j)
+        hp_jobs = set(self.hold)
+        # a TSC proof request for the block below the tip (about to be replaced), in flight across the whole reorganisation:
+        # its first read (the block's tx hashes) is delivered, whatever it reads next waits until the new chain is indexed
+        below = tip.parent
+        pos = min(5, len(below.tx_hashes) - 1)
+        self.request('p', 'blockchain.transaction.get_tsc_merkle', [below.tx_hashes[pos][::-1].hex(), below.height, 'txid', 'block_header'])
+        self.loop.run_until_idle()
+        mine_ = [j for j in self.session_jobs() if j not in self.hold]
+        if mine_:
+            mine_[0].deliver()
+            self.loop.run_until_idle()
+        for j in self.session_jobs():
+            self.hold.add(j)
         base = tip.parent.parent
-        self.mine(3, parent=base.bid)
-        self.mine(1)
-        self.mine(2)
+        rs = self.job.get('reorg_sizes', [3, 1, 2])
+        self.mine(rs[0], parent=base.bid)
+        self.mine(rs[1])
+        self.mine(rs[2])
         # the block processor undoes and re-indexes; between an advance and the next flush the new blocks are
         # in memory only: by-height requests in that window must be refused or answered for the new chain
         oldchain = self.tree.chain(tip.bid)
@@ -107,9 +121,9 @@ class ProofRun(FullStack):
                         self.bad.append(f'window: id_from_pos({h}, 0) answered with a transaction that is not in the block now at that height')
             if self.db.state.height < cp - 1 and self.hold:
                 # the chain is now shorter than the checkpoint the in-flight proof asked for: its read happens now
-                for j in list(self.hold):
+                for j in list(self.hold & hp_jobs):
                     j.deliver()
-                self.hold.clear()
+                self.hold -= hp_jobs
                 self.loop.run_until_idle()
         for _ in range(200):
             if not self.micro('sess'):
